@@ -9,7 +9,7 @@ use std::collections::BTreeMap;
 use std::sync::Mutex;
 use vmodel::ast::*;
 use vmodel::enumerate::*;
-pub use vmodel::gen::{chain_entries, leaf_entries, ref_entries, Leaf, Refk, LEAVES, NAMES, REFS};
+pub use vmodel::gen::{chain_entries, leaf_entries, rbranch, ref_entries, Leaf, Refk, LEAVES, NAMES, REFS};
 use vmodel::par::par_for;
 use vmodel::{Reporter, Tier};
 
@@ -204,6 +204,34 @@ pub fn run(tier: Tier) -> i32 {
         }
         jobs.push(("markup-arguments", p));
     }
+    // ---- literal float counts written as whole numbers (2.0, 0.0, -3.0, 1e2) and not (2.5, 0.1) fix the branch of an
+    // f32 and of an f64 range, on exact values and on span bounds
+    {
+        let mut p = Project::new(Config::simple("en", &["en", "fr"]));
+        for l in ["en", "fr"] {
+            let mut e = vec![];
+            for ty in ["f32", "f64"] {
+                e.push((
+                    format!("r{ty}"),
+                    Val::Range(RangeDecl {
+                        ty: Some(ty.into()),
+                        branches: vec![
+                            rbranch(st(&format!("[{l}.{ty}.neg]")), vec![CountSpec::Str("..0.0".into())]),
+                            rbranch(st(&format!("[{l}.{ty}.tenth]")), vec![CountSpec::Float("0.1".into())]),
+                            rbranch(st(&format!("[{l}.{ty}.two]")), vec![CountSpec::Float("2.0".into())]),
+                            rbranch(s(vec![text(&format!("[{l}.{ty}.0-0.3] ")), var("count")]), vec![CountSpec::Str("0.0..=0.3".into())]),
+                            rbranch(s(vec![text(&format!("[{l}.{ty}.fb] ")), var("count")]), vec![]),
+                        ],
+                    }),
+                ));
+                for (i, c) in ["2.0", "0.0", "-3.0", "1e2", "2.5", "0.1", "0.3", "0.7"].iter().enumerate() {
+                    e.push((format!("c{ty}n{i}"), s(vec![text("<"), fk_args(&format!("r{ty}"), vec![("count", FkArg::Float(c.to_string()))]), text(">")])));
+                }
+            }
+            p.set_file(None, l, e);
+        }
+        jobs.push(("float-literal-counts", p));
+    }
 
     // ---- namespaces: referencing key and target in the same / another namespace ------------------------
     for rt in tuples(REFS.len(), 2) {
@@ -267,7 +295,7 @@ pub fn run(tier: Tier) -> i32 {
         }
     }
     let mut cov = serde_json::Map::new();
-    cov.insert("rule".into(), json!(format!("chains k0 -> .. -> leaf of depth <= {max_depth}: every tuple over 18 referencing forms (whole range branch / plural form, literal float count, whole value, mid text, inside component, string/number/bool/renaming/nested-$t argument, literal count 1 and 0, renamed count, unknown argument, inside range branch, inside plural form, two references) x 10 target kinds (text, interpolation, component, range, plural, number, plain `{{{{count}}}}` variable, the empty string, a float range, formatted variables) x every assignment of key names (all permutations for depth<=2); special targets (subkey path, subkey group, missing, self, path through a value, a dangling middle segment whose tail exists one level up, a namespace prefix in a project without namespaces); all digraphs on <=3 nodes where each node is text, $t(j) or $t(j,{{x:$t(k)}}) (cycles included); 4-locale projects (plain, explicit-null target, inheriting locale with null target) for depth <= {loc_depth}; two-namespace layouts for depth 2; string arguments holding markup (a component alone, next to text, around a variable, nested, self-closed) into a plain target, a wrapping target and through two hops; literal counts 0..=4 and 0.5 / 1.0 / 1.5 on cardinal and ordinal plurals in pt / pt-PT / en-GB / fr-CA projects (regional rules); every inherits map x target presence x referencing-key state over 4 locales; each accepted project: every key in every locale rendered under boundary counts against the substitution model; each rejected project: Err whose message names a key")));
+    cov.insert("rule".into(), json!(format!("chains k0 -> .. -> leaf of depth <= {max_depth}: every tuple over 18 referencing forms (whole range branch / plural form, literal float count, whole value, mid text, inside component, string/number/bool/renaming/nested-$t argument, literal count 1 and 0, renamed count, unknown argument, inside range branch, inside plural form, two references) x 10 target kinds (text, interpolation, component, range, plural, number, plain `{{{{count}}}}` variable, the empty string, a float range, formatted variables) x every assignment of key names (all permutations for depth<=2); special targets (subkey path, subkey group, missing, self, path through a value, a dangling middle segment whose tail exists one level up, a namespace prefix in a project without namespaces); all digraphs on <=3 nodes where each node is text, $t(j) or $t(j,{{x:$t(k)}}) (cycles included); 4-locale projects (plain, explicit-null target, inheriting locale with null target) for depth <= {loc_depth}; two-namespace layouts for depth 2; literal float counts (whole: 2.0, 0.0, -3.0, 1e2; fractional: 2.5, 0.1, 0.3, 0.7) to an f32 and an f64 range with exact values and span bounds; string arguments holding markup (a component alone, next to text, around a variable, nested, self-closed) into a plain target, a wrapping target and through two hops; literal counts 0..=4 and 0.5 / 1.0 / 1.5 on cardinal and ordinal plurals in pt / pt-PT / en-GB / fr-CA projects (regional rules); every inherits map x target presence x referencing-key state over 4 locales; each accepted project: every key in every locale rendered under boundary counts against the substitution model; each rejected project: Err whose message names a key")));
     cov.insert("exhaustive".into(), json!(true));
     cov.insert("outcome_classes".into(), json!(*classes.lock().unwrap()));
     cov.insert("key_locale_comparisons".into(), json!(*keys_total.lock().unwrap()));
